@@ -304,6 +304,24 @@ func (m *mainMonitor) observe(line string, pos []string, h int64, res chainx.Res
 			if count("Deposit") != 0 {
 				v("C19", "candidate-fee-reported-as-deposit", "the registration fee is charged, not deposited")
 			}
+		} else if m.single && strings.HasPrefix(args[0], "#") {
+			// "charges exactly the configured fee for ... a candidate registration": a registration by the candidate
+			// itself (witness present), not listed yet, holding at least the configured non-negative fee, goes through
+			// whatever the fee is (0, above 9000 GAS, ...: the fee transfer is no deposit, the deposit limits do not
+			// apply); on HALT the exact movement and the listing are checked above and at the end of the block
+			raw, okCfg := m.cfg[hx.Hex([]byte("InnerRingCandidateFee"))]
+			if a, ok := m.w.act.byTag[args[0][1:]]; ok && a.key != nil && okCfg && len(hx.UnHex(raw)) <= 8 {
+				fee := bytesToInt(hx.UnHex(raw)).Int64()
+				bal := int64(-1)
+				for i, t := range m.w.tracked {
+					if t.acc == a.acc {
+						bal = prev.gas[i]
+					}
+				}
+				if fee >= 0 && bal >= fee && !m.cands[hx.Hex(a.key)] && m.w.act.witnessed(sig, a.acc) {
+					v("C19", "candidate-fee-not-charged", fmt.Sprintf("registration of %s (holding %d GAS fractions, configured fee %d) was refused: no fee charged, candidate not listed", args[0], bal, fee))
+				}
+			}
 		}
 	}
 	// Deposit notifications only come with GAS actually received by the contract in the same transaction
@@ -453,16 +471,20 @@ func (m *mainMonitor) observe(line string, pos []string, h int64, res chainx.Res
 			case "setcfg":
 				m.cfg[hx.Hex(m.w.act.val(args[1]))] = hx.Hex(m.w.act.val(args[2]))
 			case "aupd":
+				old := strings.Join(m.keys, ",")
 				m.keys = nil
 				if args[1] != "-" {
 					for _, tk := range strings.Split(args[1], ",") {
 						m.keys = append(m.keys, hx.Hex(m.w.act.val(tk)))
 					}
 				}
-				for id, t := range m.open {
-					m.tainted[id] = true
-					if t.cand != "" {
-						m.loose[t.cand] = true
+				if strings.Join(m.keys, ",") != old {
+					// the stored list changed: ballots opened under the old list are outside the property's statement
+					for id, t := range m.open {
+						m.tainted[id] = true
+						if t.cand != "" {
+							m.loose[t.cand] = true
+						}
 					}
 				}
 			case "candrm":
